@@ -39,16 +39,16 @@ func (c *ctx) genLeaf(name string, f reflect.Value) interface{} {
 		case "DLFrequency":
 			return freqVal(uint32(c.rnd.Intn(1<<24)) * 100)
 		case "Countdown":
-			return le32(uint32(c.rnd.Intn(1 << 24)))
+			return le32(uint32(c.edgeN(1 << 24)))
 		}
 		if c.rnd.Intn(4) == 0 {
 			return le32(uint32(c.pick(0, 1, 0x7fffffff)) + uint32(c.pick(0, 0x80000000)))
 		}
 		return le32(c.rnd.Uint32())
 	case reflect.Int32:
-		return le32(c.rnd.Uint32())
+		return le32(c.edge32())
 	case reflect.Ptr:
-		return []interface{}{le32(uint32(c.rnd.Intn(1 << 24)))}
+		return []interface{}{le32(uint32(c.edgeN(1 << 24)))}
 	case reflect.Array:
 		if f.Type().Elem().Kind() == reflect.Bool {
 			bits := make([]int, f.Len())
